@@ -190,6 +190,13 @@ trait Adapter: Sized + 'static {
     fn capacity(&self) -> usize;
     fn obj(h: &Self::H) -> &Obj;
     fn share(h: Self::H) -> (Box<dyn Any>, Box<dyn Any>);
+    /// the handle(s) with the payload type erased (`.erase()`: `PooledMut<()>` ...); raw adapters keep the typed handle
+    fn erased(h: Self::H) -> Box<dyn Any> {
+        Box::new(h)
+    }
+    fn share_erased(h: Self::H) -> (Box<dyn Any>, Box<dyn Any>) {
+        Self::share(h)
+    }
     /// drop one handle (managed/local: the handle's Drop; raw: pool.remove(handle))
     fn drop_handle(&self, h: Box<dyn Any>);
 }
@@ -237,6 +244,14 @@ macro_rules! managed_like {
             }
             fn share(h: Self::H) -> (Box<dyn Any>, Box<dyn Any>) {
                 let s = h.into_shared();
+                let c = s.clone();
+                (Box::new(s), Box::new(c))
+            }
+            fn erased(h: Self::H) -> Box<dyn Any> {
+                Box::new(h.erase())
+            }
+            fn share_erased(h: Self::H) -> (Box<dyn Any>, Box<dyn Any>) {
+                let s = h.erase().into_shared();
                 let c = s.clone();
                 (Box::new(s), Box::new(c))
             }
@@ -406,7 +421,13 @@ fn closure_action<A: Adapter>(pool: &A, kind: &str, sc: &str, captured: &mut Opt
     }
 }
 
+thread_local! {
+    /// this run holds every scripted object through type-erased handles
+    static ERASED: Cell<bool> = const { Cell::new(false) };
+}
+
 fn run<A: Adapter>(p: &Value, fill: bool) {
+    let erased = ERASED.with(Cell::get);
     let pool = Rc::new(A::new());
     let c = Rc::new(Ctx { ops: Rc::new(Ops(pool.clone())), table: RefCell::new(BTreeMap::new()), next: Cell::new(1) });
     CTX.with(|x| *x.borrow_mut() = Some(c.clone()));
@@ -423,7 +444,13 @@ fn run<A: Adapter>(p: &Value, fill: bool) {
     let mut pending: BTreeMap<u32, A::H> = BTreeMap::new();
     for i in (1..=n).rev() {
         let kids: Vec<u32> = (i + 1..=n).filter(|j| par[(*j - 1) as usize] == i).collect();
-        let owned = kids.iter().map(|j| Owned { id: *j, h: Some(Box::new(pending.remove(j).unwrap()) as Box<dyn Any>) }).collect();
+        let owned = kids
+            .iter()
+            .map(|j| {
+                let h = pending.remove(j).unwrap();
+                Owned { id: *j, h: Some(if erased { A::erased(h) } else { Box::new(h) as Box<dyn Any> }) }
+            })
+            .collect();
         let h = pool.insert(Obj::new(i, dt[(i - 1) as usize], owned));
         A::obj(&h).armed.set(true);
         pending.insert(i, h);
@@ -434,8 +461,10 @@ fn run<A: Adapter>(p: &Value, fill: bool) {
     }
     if let Some(h) = pending.remove(&1) {
         let hs: Vec<Box<dyn Any>> = if shared {
-            let (a, b) = A::share(h);
+            let (a, b) = if erased { A::share_erased(h) } else { A::share(h) };
             vec![a, b]
+        } else if erased {
+            vec![A::erased(h)]
         } else {
             vec![Box::new(h)]
         };
@@ -590,6 +619,7 @@ pub fn main(program: &str) {
     let v: Value = serde_json::from_str(program).expect("bad program json");
     let p = &v["prog"];
     let fill = v["fill"].as_bool().unwrap_or(false);
+    ERASED.with(|e| e.set(v["erased"].as_bool().unwrap_or(false)));
     match v["pool"].as_str().unwrap() {
         "OpaquePool" => run::<AOpaque>(p, fill),
         "PinnedPool" => run::<APinned>(p, fill),
